@@ -2377,6 +2377,22 @@ emit_default_string_value(arg_t *arg, asn1p_value_t *v) {
 	}
 }
 
+/*
+ * Render an integer DEFAULT value as a part of a C identifier:
+ * "5" for 5, "minus_5" for -5 ('-' cannot be a part of an identifier).
+ */
+static const char *
+default_value_suffix(asn1c_integer_t value) {
+	static char buf[128 + sizeof("minus_")];
+	const char *s = asn1p_itoa(value);
+
+	if(s && *s == '-') {
+		snprintf(buf, sizeof(buf), "minus_%s", s + 1);
+		return buf;
+	}
+	return s;
+}
+
 static int
 try_inline_default(arg_t *arg, asn1p_expr_t *expr, int out) {
 	int save_target = arg->target->target;
@@ -2402,13 +2418,13 @@ try_inline_default(arg_t *arg, asn1p_expr_t *expr, int out) {
             if(C99_MODE) OUT(".default_value_cmp = ");
 			OUT("&asn_DFL_%d_cmp_%s,",
 				expr->_type_unique_index,
-				asn1p_itoa(expr->marker.default_value->value.v_integer));
+				default_value_suffix(expr->marker.default_value->value.v_integer));
             OUT("\t/* Compare DEFAULT %s */\n",
 				asn1p_itoa(expr->marker.default_value->value.v_integer));
             if(C99_MODE) OUT(".default_value_set = ");
 			OUT("&asn_DFL_%d_set_%s,",
 				expr->_type_unique_index,
-				asn1p_itoa(expr->marker.default_value->value.v_integer));
+				default_value_suffix(expr->marker.default_value->value.v_integer));
             OUT("\t/* Set DEFAULT %s */\n",
 				asn1p_itoa(expr->marker.default_value->value.v_integer));
 			return 1;
@@ -2417,7 +2433,7 @@ try_inline_default(arg_t *arg, asn1p_expr_t *expr, int out) {
 
 		OUT("static int asn_DFL_%d_cmp_%s(const void *sptr) {\n",
 			expr->_type_unique_index,
-			asn1p_itoa(expr->marker.default_value->value.v_integer));
+			default_value_suffix(expr->marker.default_value->value.v_integer));
 		INDENT(+1);
 		OUT("const %s *st = sptr;\n", asn1c_type_name(arg, expr, TNF_CTYPE));
 		OUT("\n");
@@ -2442,7 +2458,7 @@ try_inline_default(arg_t *arg, asn1p_expr_t *expr, int out) {
 
 		OUT("static int asn_DFL_%d_set_%s(void **sptr) {\n",
 			expr->_type_unique_index,
-			asn1p_itoa(expr->marker.default_value->value.v_integer));
+			default_value_suffix(expr->marker.default_value->value.v_integer));
 		INDENT(+1);
 		OUT("%s *st = *sptr;\n", asn1c_type_name(arg, expr, TNF_CTYPE));
 		OUT("\n");
